@@ -20,5 +20,30 @@ claim("C20",
       "Decides the clause named in the statement exactly: every Emit* site in the program resolves to constant names and label names, and each formatted metric name has one kind and one label-name set (the precondition under which the production Prometheus client cannot panic); plus explicit aborts against an accepted set, the revision-leak rules of C04 (wedge) and length-guarded indexing of request slices in the etcd layer. Implicit panics from value arithmetic (e.g. the event ring) are not decided.",
       STATIC_NOTE, "DESIGN.md §3 C20")
 
-for pid in ["C01","C02","C03","C05","C06","C07","C09","C10","C11","C12","C13","C14","C15","C16","C17","C19"]:
+claim("C01",
+      "batch-shape and key-provenance analysis on SSA (who-may-write the index record, same-key / same-revision batch, commit-once on all paths), guard dominance for CAS expectations",
+      "Decides structural necessary conditions of lost-update freedom for every write batch in the program: the index record is written only conditionally; each version-writing batch pairs one conditional index op with the version Put for the same key and revision and is committed once on every path; the expected value of each CAS has an accepted provenance and guard (tombstone and revision-order guard of create, delete order guard); write entry points never delete. Linearizability under concurrency rests on engine atomicity (C11) and is not decided.",
+      STATIC_NOTE, "DESIGN.md §3 C01")
+
+claim("C02",
+      "atomic-only field discipline of the TSO, revision provenance through parameters, who-may-call, header>=data proof forms on SSA",
+      "Decides the premises of revision uniqueness/ordering (single atomic fetch-add, monotone guarded raise, atomic-only access), that every stored version carries an allocated revision, who may reset the counters, and for every backend response carrying a key-value that header >= data follows from an accepted proof form. The List-at-future-revision case violates the last rule and is recorded as a known finding. Real-time order of responses is not decided.",
+      STATIC_NOTE, "DESIGN.md §3 C02")
+
+claim("C05",
+      "role resolution of the watch pipeline + dominance / all-paths search (subscribe-before-read, cache-before-broadcast, synchronous drop), taint of the resume revision, channel-send discipline",
+      "Decides the ordering and hand-over facts every correct implementation of this watch design needs: registration before cache read and resume bound from the cache snapshot, cache insert before broadcast for valid slots only, synchronous removal of a slow subscriber, no other lossy hop, single producers, close propagation. Ring arithmetic, filters, payloads and delivery under all schedules are not decided.",
+      STATIC_NOTE, "DESIGN.md §3 C05")
+
+claim("C06",
+      "coupling-point rules shared with C04/C05/C08/C09 plus header-before-snapshot dominance and derivation",
+      "Decides the two coupling points of list-then-watch: events correspond to successful commits with the stored revision, and range-style reads take the committed revision before the scan with header and default bound deriving from that load only; plus queue-before-commit for unknown outcomes. The hyper-property itself (reconstruction for all histories) is not decided.",
+      STATIC_NOTE, "DESIGN.md §3 C06")
+
+claim("C09",
+      "sequencer path ordering (queue before commit), sentinel-comparison discipline, clamp derivation, adapter error-classification table, client error mapping by dominance",
+      "Decides that unknown-outcome slots are queued (errors.Is) before commit, the compaction clamp below the oldest queued revision, shape and reporting of the repair write, that the queue head survives a failed read, the TiKV adapter's classification of the engine commit error, and that clients get a nil error only after success or a definite failure. Convergence after faults on the repair write itself is not decided.",
+      STATIC_NOTE, "DESIGN.md §3 C09")
+
+for pid in ["C03","C07","C10","C11","C12","C13","C14","C15","C16","C17","C19"]:
     na(pid, "static rules designed in DESIGN.md §3 but the check is not built yet; not claimed until it is")
